@@ -220,6 +220,7 @@ def run(chk, repo, tier):
     tilt_chain(chk, repo, 'C04-a')
     additive(chk, repo, 'C04-c')
     folding(chk, repo, 'C04-d')
+    common.mul_concat(chk, repo, 'C04-d')
     from .c02 import contracts
 
     class _Only:
